@@ -6,6 +6,7 @@ SPEC = {
                    "3": "graphql.PrepareQuery verdict of each version's built schema on each generated query"},
     "corr_name": "Federation.Merge (merge_all, field_services, valid_query) vs federation.MergeIntrospectionSchemas / ConvertVersionedSchemas / graphql.PrepareQuery",
     "coq_modules": ["Federation.Merge"],
+    "search": {"n": 6000, "timeout": 600},
     "trusted_base": [
         "Coq 8.16.1 kernel and vm_compute (no native_compute); Print Assumptions: closed under the global context",
         "hand-written model coq/theories/Federation/Merge.v of federation/merge_schemas.go and schema.go:173-227, tied to the code by the correspondence check only",
